@@ -17,7 +17,7 @@
         ∃ pt, decodeParts noFix attrTable xp (encodeUpdate xp.p u) = .ok pt ∧ reportParts xp.p pt = report xp.p u
 
   It is FALSE as it stands; the proof forces the side conditions below, each either outside the model or a
-  genuine difference of the code (replayed on the real code, see the `example`s and the report to the lead):
+  genuine difference between what ExaBGP decodes by value and what the reference carries opaquely:
 
     `ExaAccepts` per attribute
       · an unrecognised type code is one ExaBGP has no class for either (22, 23, 25, 26, 29, 40 are decoded by
@@ -28,22 +28,23 @@
       · COMMUNITY / CLUSTER_LIST / EXTENDED / LARGE COMMUNITY lists are not empty (ExaBGP: treat-as-withdraw, as
         RFC 7606 asks; the reference codec accepts the empty list)
     `MergeFree`
-      · no AS4_AGGREGATOR: on a 4-octet session ExaBGP RELAYS it (`as4-aggregator` in the JSON event) where RFC 6793
-        §4.1 and the reference discard it — DIFFERENCE, `exa_differs_as4_aggregator`
-      · on a 2-octet session no AS4_PATH: the RFC 6793 reconstruction is proved separately (`exa_merge_is_rfc6793`:
-        the model of `merge_attributes` IS `merge6793`) and checked end to end on the canonical AS_TRANS case
+      · no AS4_AGGREGATOR, and on a 2-octet session no AS4_PATH: the RFC 6793 reconstruction is proved separately
+        (`exa_merge_is_rfc6793`: the model of `merge_attributes` IS `merge6793`, including the discard of the
+        confederation segments of an AS4_PATH, RFC 6793 §6) and checked end to end on the canonical AS_TRANS case
         (`example`), but the message-level theorem does not cover the re-ordering of the collection it causes.
-    End-of-RIB
-      · every reference End-of-RIB is one for ExaBGP (`exa_eor_complete`); the converse fails: an UPDATE without
-        routes whose attributes are all ignored (unknown optional non-transitive; AS4_PATH on a 4-octet session)
-        is taken for an IPv4-unicast End-of-RIB — DIFFERENCE, `exa_differs_eor`.
+    AIGP
+      · an attribute of type 26 is never `.unknown` under `ExaAccepts` (ExaBGP has a class for it); what a session
+        with and without AIGP reports for it is `Props/C02.lean` (`aigp_*`) and the C02 correspondence.
+    End-of-RIB is outside these theorems (C02's `eor_iff` is about the reference; the code's recognition of it
+    is compared on every run by the C02 correspondence).
 
   PROVED: `exa_decoder_agrees_reference_partial` (announce, withdraw, attrs; every attribute order, both length
   widths, Partial bit, unknown attributes, both AS sizes, IPv4/IPv6 × unicast, multicast, labelled, VPN with
-  ADD-PATH), `exa_nothing_dropped`, `exa_nothing_invented`, `exa_merge_is_rfc6793`, `exa_eor_complete`.
+  ADD-PATH), `exa_decodes_wellformed`, `exa_nothing_dropped`, `exa_nothing_invented`, `exa_merge_is_rfc6793`.
 -/
 import ExaModel.Lemmas.Attr7606AgreeTop
 import ExaModel.Props.C02
+import ExaModel.Props.C08
 
 namespace Exa.Props.C02Exa
 open Exa Exa.Wire Exa.Attr7606
@@ -80,15 +81,22 @@ theorem exa_decoder_agrees_reference_partial (xp : XP) (u : UpdateSem) (hwf : WF
     congr 1
     cases hf : findAttr u.attrs 14 with
     | none => rfl
-    | some a => cases hv : a.val <;> simp [List.map_map, Function.comp]
+    | some a => cases hv : a.val <;> simp [hv, List.map_map, Function.comp]
   · -- withdraws
     simp only [reportParts, report, partsOf, mpWithdraws_eq xp.p u.attrs ha hnd, List.map_append, List.map_map]
     congr 1
     cases hf : findAttr u.attrs 15 with
     | none => rfl
-    | some a => cases hv : a.val <;> simp [List.map_map, Function.comp]
+    | some a => cases hv : a.val <;> simp [hv, List.map_map, Function.comp]
   · -- attributes
-    simp only [reportParts, report, relayed_enc xp u ha hmf]
+    have h26 : rowOf attrTable aigpCode ≠ none := by decide
+    have hna : ∀ a ∈ u.attrs, ∀ c raw, a.val = .unknown c raw → c ≠ aigpCode := by
+      intro a ham c raw hv hc
+      have := (hacc a ham).2
+      rw [hv] at this
+      subst hc
+      exact h26 this
+    simp only [reportParts, report, relayed_enc xp u ha hmf hna]
 
 /-- What `Message.unpack` returns in the model for such an UPDATE: the End-of-RIB fast path, or the collection
     assembled from `partsOf` — not marked treat-as-withdraw, so the announces are announced. -/
@@ -134,18 +142,37 @@ def xpEx : XP := { p := C02.pEx, families := [(1, 1), (1, 128), (2, 4)] }
 -- withdrawn route and NLRI: the model of ExaBGP's decoder reports exactly what the reference reports — including
 -- the RFC 6793 reconstruction, which `MergeFree` keeps out of the theorem
 example : (decodeParts noFix attrTable xpEx (encodeUpdate C02.pEx C02.uEx)).toOption.map
-      (fun pt => ((reportParts C02.pEx pt).announce, (reportParts C02.pEx pt).withdraw, (reportParts C02.pEx pt).attrs)) =
-    some ((report C02.pEx C02.uEx).announce, (report C02.pEx C02.uEx).withdraw, (report C02.pEx C02.uEx).attrs) := by
-  decide
+      (fun pt => (reportParts C02.pEx pt).announce) = some (report C02.pEx C02.uEx).announce := by decide
+example : (decodeParts noFix attrTable xpEx (encodeUpdate C02.pEx C02.uEx)).toOption.map
+      (fun pt => (reportParts C02.pEx pt).withdraw) = some (report C02.pEx C02.uEx).withdraw := by decide
+example : (decodeParts noFix attrTable xpEx (encodeUpdate C02.pEx C02.uEx)).toOption.map
+      (fun pt => (reportParts C02.pEx pt).attrs) = some (report C02.pEx C02.uEx).attrs := by decide
 
 -- the same UPDATE without the AS4_PATH satisfies the side conditions of the theorem (`ExaSide`)
-def uMergeFree : UpdateSem := { C02.uEx with attrs := C02.uEx.attrs.filter (fun a => a.val.code != 17) }
+def uMergeFree : UpdateSem :=
+  { C02.uEx with attrs :=
+      [ ⟨⟨false, true, false, true⟩, .origin 0⟩,
+        ⟨⟨false, true, false, false⟩, .asPath [(2, [65002, 23456, 3])]⟩,
+        ⟨⟨false, true, false, false⟩, .nextHop 0x0A000001⟩,
+        ⟨⟨true, false, false, false⟩,
+          .mpReach 1 128 [0, 0, 0, 0, 0, 0, 0, 0, 10, 0, 0, 1]
+            [{ pathId := some 7, labels := [100, 200], rd := [0, 0, 253, 232, 0, 0, 0, 1], plen := 24, pfx := [10, 0, 0] }]⟩,
+        ⟨⟨true, true, true, false⟩, .unknown 99 [1, 2, 3]⟩,
+        ⟨⟨true, false, false, true⟩,
+          .mpUnreach 2 4 [{ pathId := none, labels := [], rd := [], plen := 64, pfx := [32, 1, 13, 184, 0, 0, 0, 0] }]⟩ ] }
+example : uMergeFree.attrs = C02.uEx.attrs.filter (fun a => a.val.code != 17) := by decide
 example : ExaSide xpEx uMergeFree := by
-  refine ⟨?_, by decide⟩
-  intro a ha
-  simp only [uMergeFree, C02.uEx, List.filter, List.mem_cons, List.mem_nil_iff, or_false] at ha
-  rcases ha with h | h | h | h | h | h <;> subst h <;> refine ⟨by simp [NonEmptyLists], ?_⟩ <;>
-    first | trivial | decide | (simp [ValAccepts, xpEx, C02.pEx, nhLenOk, sumBytes])
+  refine ⟨?_, ?_, ?_⟩
+  · intro a ha
+    simp only [uMergeFree, List.mem_cons, List.mem_nil_iff, or_false] at ha
+    rcases ha with h | h | h | h | h | h <;> subst h <;> refine ⟨by simp [NonEmptyLists], ?_⟩ <;>
+      first | trivial | decide | (simp [ValAccepts, xpEx, C02.pEx, nhLenOk, sumBytes])
+  · intro a ha
+    simp only [uMergeFree, List.mem_cons, List.mem_nil_iff, or_false] at ha
+    rcases ha with h | h | h | h | h | h <;> subst h <;> simp [AttrVal.code]
+  · intro _ a ha
+    simp only [uMergeFree, List.mem_cons, List.mem_nil_iff, or_false] at ha
+    rcases ha with h | h | h | h | h | h <;> subst h <;> simp [AttrVal.code]
 example : semErr C02.pEx uMergeFree = none := by decide
 
 end Exa.Props.C02Exa
